@@ -37,7 +37,7 @@ PROPS = {
     ),
     "C10": dict(
         design_ref="DESIGN.md 7 C10",
-        technique='contract-based deductive verification (PyVC + z3) of the admission relation Mailbox.would_conflict and intersect (loop invariants over the executing-task list) and of the release-before-queue ordering in Mailbox.copy (second contract, cut at the queueing point); bounded exhaustive oracle',
+        technique='contract-based deductive verification (PyVC + z3) of the admission relation Mailbox.would_conflict and intersect (loop invariants over the executing-task list), of the admission gate built on it (Mailbox.command_can_proceed: on return nothing on the executing list has to be serialised against the command; _cleanup_executing_tasks: only completed commands leave the list; management_task: an admitted command is on the list until it completes) and of the release-before-queue ordering in Mailbox.copy (second contract, cut at the queueing point); bounded exhaustive oracle',
         category="other",
         text="Mailbox.would_conflict is proved, for every command kind, peek bit, message sets and any list of executing commands, to admit a command only if it does not have to be serialised "
              "against an executing one (structure writers run alone; flag writers never overlap a SEARCH), to admit everything when nothing executes, and never to refuse status-only commands "
@@ -207,10 +207,10 @@ PROPS = {
     ),
     "C17": dict(
         design_ref="DESIGN.md 7 C17",
-        technique='contract-based deductive verification (PyVC + z3 strings) of the INBOX guard and name handling at the head of Mailbox.delete only; the rest is bounded: namespace-invariant oracle over seeded histories, subtree RENAME with content read back, LIST wildcards exhaustively against an RFC 3501 matcher',
+        technique='contract-based deductive verification (PyVC + z3 strings) of the INBOX guard and name handling at the head of Mailbox.delete, of the message-moving loop of RENAME INBOX (_helper_rename_inbox, with ghost code naming the source of each new message) and of the re-keying step of RENAME (_helper_rename_folder._do_rename_folder: nothing left under the old name in the table of active mailboxes); the rest is bounded: namespace-invariant oracle over seeded histories, subtree RENAME with content read back, LIST wildcards exhaustively against an RFC 3501 matcher',
         category="other",
         text="Proved for every name a client can send: Mailbox.delete never gets past its guard with a name that equals INBOX ignoring case, in any quoting (after the recorded fix; before it, DELETE \"INBOX\" emptied the inbox), "
-             "and the name it then works with is confined (C09). Everything else the property says about LIST/LSUB following the CREATE/DELETE/RENAME/SUBSCRIBE history is checked only by the bounded oracle: after every step of 40-200 seeded histories "
+             "and the name it then works with is confined (C09). RENAME INBOX x is proved to create one new message per inbox message with consecutive fresh UIDs, to carry exactly the flags of the source message to the new key (and no others), to leave none of the moved files in the inbox folder and to only read the inbox's own flag table; the re-keying step of an ordinary RENAME is proved to leave the mailbox object reachable under the new name only, every other active mailbox untouched. Everything else the property says about LIST/LSUB following the CREATE/DELETE/RENAME/SUBSCRIBE history is checked only by the bounded oracle: after every step of 40-200 seeded histories "
              "INBOX is listed, no name is listed twice, \\HasChildren holds exactly when an existing mailbox lies below, a deleted leaf is gone, RENAME moves the subtree with its UIDs and leaves nothing under the old name, and a refused command changes neither the listing nor the directory tree. Bounded since: RENAME of a root, a middle node and a leaf of a 3-level tree with every message of the subtree fetched by UID before and after (subject and flags) and an APPEND into every moved mailbox that must land in its own directory; the regular expression built for LIST/LSUB patterns compared with an independent RFC 3501 wildcard matcher for every pattern over {a,b,/,%,*} up to length 4 against every name over {a,b,/} up to length 4. Proved since (thin handlers): CREATE, DELETE, RENAME call the mailbox operation with exactly the parsed name(s) on this server; SUBSCRIBE / UNSUBSCRIBE set the bit of the named mailbox and then commit it.",
         note="Narrow deductive part: create/rename outcome shapes, do_list's attribute recomputation (DESIGN F37), the LIKE-based rename query (F38), the wildcard translation and LIST-EXTENDED are not under contract.",
         assumptions=["z3/cvc5 sound", "PyVC level-1 strings (str.lower() compared with a constant is decided as a case-insensitive match)"],
